@@ -21,6 +21,23 @@ fn main() {
         eprintln!("unknown worker {}", args[1]);
         std::process::exit(2);
     }
+    // safety net: an explorer that outgrows its memory budget ends as a machinery error (exit 2)
+    // instead of being picked by the kernel's OOM killer (TV_RSS_CAP_MB, default 12 GiB)
+    std::thread::spawn(|| {
+        let cap_mb: u64 = std::env::var("TV_RSS_CAP_MB").ok().and_then(|s| s.parse().ok()).unwrap_or(12 * 1024);
+        loop {
+            std::thread::sleep(std::time::Duration::from_secs(2));
+            let rss_pages: u64 = std::fs::read_to_string("/proc/self/statm")
+                .ok()
+                .and_then(|s| s.split_whitespace().nth(1).and_then(|x| x.parse().ok()))
+                .unwrap_or(0);
+            let rss_mb = rss_pages * 4096 / (1 << 20);
+            if rss_mb > cap_mb {
+                eprintln!("MACHINERY-ERROR: the explorer's resident memory ({rss_mb} MiB) exceeded the cap of {cap_mb} MiB; no verdict");
+                std::process::exit(2);
+            }
+        }
+    });
     let prop = args[0].clone();
     let Some(engine) = tv::engines::engines().into_iter().find(|e| e.prop == prop) else {
         eprintln!("no engine for {prop}");
